@@ -187,7 +187,10 @@ def name_form(rng, comps, allow_str=True, one_shot=True):
     if k == 0:
         return [bytes(c) for c in comps], 'list-bytes'
     if k == 1:
-        return rc.enc_name(comps), 'encoded'
+        # the encoded form in any binary container (a Name sliced out of a received packet is a memoryview)
+        e_ = rc.enc_name(comps)
+        r_ = rng.randrange(3)
+        return (e_, 'encoded') if r_ == 0 else (bytearray(e_), 'encoded-bytearray') if r_ == 1 else (memoryview(e_), 'encoded-memoryview')
     if k == 2:
         return [bytearray(c) if rng.random() < 0.5 else memoryview(bytes(c)) for c in comps], 'list-mixed-bin'
     if k == 3:
